@@ -50,7 +50,7 @@ func weights(over map[string]int) map[string]int {
 
 var profiles = map[string]*profile{
 	"elect": {name: "elect", lateBoot: 15, minNodes: 2, maxNodes: 5, extras: 0, warmUpd: 3, steps: [2]int{10, 50}, gatedBias: 85, padMax: 8,
-		tpl: map[string]int{"figure8": 30}, w: weights(map[string]int{"poke": 16, "elect": 14, "dlv": 14, "dlvto": 8, "dlvfrom": 6, "upd": 3, "snap": 0, "cfg": 1, "xfer": 2, "crash": 4, "restart": 6, "sever": 6, "isolate": 4, "adv": 6})},
+		tpl: map[string]int{"figure8": 30, "leaderconnclosed": 15}, w: weights(map[string]int{"poke": 16, "elect": 14, "dlv": 14, "dlvto": 8, "dlvfrom": 6, "upd": 3, "snap": 0, "cfg": 1, "xfer": 2, "crash": 4, "restart": 6, "sever": 6, "isolate": 4, "adv": 6})},
 	"repl": {name: "repl", preArm: 15, minNodes: 2, maxNodes: 5, extras: 1, warmUpd: 12, steps: [2]int{10, 50}, gatedBias: 75, padMax: 120,
 		tpl: map[string]int{"crashpoint": 10, "lagsnap": 10, "divergesnap": 15, "figure8": 30}, w: weights(map[string]int{"upd": 16, "dlvamong": 10, "elect": 8, "poke": 6, "crash": 4, "restart": 6, "snap": 2, "cfg": 2})},
 	"member": {name: "member", preArm: 10, lateBoot: 10, minNodes: 1, maxNodes: 5, extras: 3, warmUpd: 6, steps: [2]int{10, 50}, gatedBias: 50, padMax: 40,
@@ -62,7 +62,7 @@ var profiles = map[string]*profile{
 	"client": {name: "client", minNodes: 1, maxNodes: 5, extras: 1, warmUpd: 10, steps: [2]int{10, 50}, gatedBias: 25, padMax: 60,
 		tpl: map[string]int{"lagsnap": 10, "divergesnap": 10, "snaprace": 15}, w: weights(map[string]int{"upd": 20, "read": 8, "dread": 6, "barrier": 5, "xfer": 3, "cfg": 3, "elect": 5, "poke": 5, "isolate": 4, "heal": 4, "crash": 3, "restart": 5, "adv": 14})},
 	"transfer": {name: "transfer", minNodes: 2, maxNodes: 5, extras: 1, warmUpd: 6, steps: [2]int{8, 40}, gatedBias: 60, padMax: 40,
-		tpl: map[string]int{"staletimeoutnow": 15, "cfgrevert": 25}, w: weights(map[string]int{"xfer": 16, "upd": 10, "cfg": 4, "poke": 8, "elect": 5, "dlv": 12, "sever": 5, "adv": 10})},
+		tpl: map[string]int{"staletimeoutnow": 15, "cfgrevert": 25, "leaderconnclosed": 20}, w: weights(map[string]int{"xfer": 16, "upd": 10, "cfg": 4, "poke": 8, "elect": 5, "dlv": 12, "sever": 5, "adv": 10})},
 	"chaos": {name: "chaos", preArm: 15, autoSnap: 25, lateBoot: 10, minNodes: 1, maxNodes: 5, extras: 2, warmUpd: 30, steps: [2]int{15, 60}, gatedBias: 10, padMax: 200, closing: true,
 		tpl: map[string]int{"lagsnap": 25, "crashpoint": 10, "staleinstall": 5, "divergesnap": 10, "staletimeoutnow": 4}, w: weights(map[string]int{"heldsnap": 2, "hold": 2, "upd": 16, "snap": 6, "cfg": 6, "xfer": 4, "crash": 4, "stop": 3, "restart": 8, "isolate": 4, "heal": 5, "adv": 16, "read": 3, "dread": 2, "barrier": 2})},
 	"snapmember": {name: "snapmember", preArm: 15, autoSnap: 20, minNodes: 2, maxNodes: 4, extras: 2, warmUpd: 12, steps: [2]int{10, 40}, gatedBias: 20, padMax: 60,
